@@ -1,3 +1,5 @@
 import arena_common, seg_common, os_common
 A = arena_common.pairs(); S = seg_common.pairs(); O = os_common.pairs()
 PAIRS = [A[k] for k in ("try_alloc_at", "arena_free")] + [S[k] for k in ("seg_commit", "seg_ensure_committed", "segment_os_alloc")] + [O["os_commit_ex"]]
+import page_common as _pc
+PAIRS += _pc.malloc_generic_pairs()      # generic path: retry once after a forced collect, NULL only when the page search failed twice; periodic drain of delayed frees
